@@ -9,23 +9,22 @@ BUDGET = {"quick": 1200, "thorough": 300000}
 RULE = ("case = history executed (i) in a fresh Cello Thread (teardown = collector deletion at thread exit) or (ii) in a "
         "fresh process' main thread (teardown = Cello_Exit through atexit, ledger read from an ELF destructor): new / "
         "new_root / new_raw and alloc / alloc_root / alloc_raw (no constructor call) of instrumented objects (malloc'd and "
-        "arena-allocated; 48 bytes, 52 bytes, 1 MiB and size 0), copy (also inside stop windows), explicit del / del_root / "
+        "arena-allocated; 48 bytes, 52 bytes, 1 MiB and size 0; one with a malloc'd side block of its own), copy (also inside stop windows), explicit del / del_root / "
         "del_raw, Box ownership with the owner allocated before or after the owned object, chains and cycles of Boxes, a "
         "garbage Box whose pointee is still registered when the sweep finalises the Box, Array<Box> / List<Box> / "
         "Table<Int,Box> / Tree<Int,Box> owners with pop / pop_at / rem / resize 0 / del / drop, managed, root and raw library "
         "objects with buffers of their own (Array, List, Table, Tree incl. Ref keys, heap Tuple, Thread object with "
         "thread-local entries; built directly or retyped from containers of scalars by assign / copy), objects kept only in "
         "thread-local storage until teardown, dropped references, forced collections, churn (threshold collections), "
-        "stop/start windows with allocations and deletions inside. Oracle: destructor ledger - never a second finalisation, no "
-        "destructor on a corrupted/finalised object, an object whose del returned - or whose owning Box element was removed "
-        "from its container - is finalised (except a registered object deleted while the collector is stopped, which may "
+        "stop/start windows with allocations and deletions inside. Oracle: destructor ledger - never a second finalisation, no finalisation of an object that is still held in a stack slot, no "
+        "destructor on a corrupted/finalised object, an object whose del returned is finalised (except a registered object deleted while the collector is stopped, which may "
         "be left to a later collection), after teardown every managed object finalised exactly once and root/raw objects "
         "exactly by their own del; arena blocks released exactly once and only after finalisation; malloc/calloc/realloc/free "
         "accounting (linker --wrap): no block allocated by the case's thread outstanding after teardown. non-trivial = a sweep "
         "(forced, threshold or teardown) finalised an owner together with its owned object, or a del inside a stop window, or "
         ">= 1 object survived to teardown. distinct = distinct case JSON.")
 ASSUMPTIONS = ["out-of-contract histories (double del, del of an object owned by a Box, destructors that allocate) are not generated; a destructor that allocates during a sweep loses the rest of the pending list - notes/C06-candidate-destructor-allocates.c",
-               "overwriting the value of an existing key in a Table/Tree of Boxes is not asserted to finalise the old pointee at once (it becomes garbage otherwise); only removals are",
+               "removing a Box element from its container (pop, pop_at, rem, resize 0, overwriting a key) is not asserted to finalise the pointee at once: left to the collector it would still be finalised exactly once",
                "objects allocated inside a stop window are deleted explicitly inside the window (in-tree documentation makes them the user's duty); deleting them after start is the known finding stop-window-del-after-start",
                "block accounting counts only blocks allocated by the case's own thread"]
 
@@ -53,8 +52,8 @@ def _case(draw):
     flags = {"owner_pair": False, "stop_del": False}
     n = draw(st.integers(2, 50))
     for _ in range(n):
-        o = draw(st.sampled_from(["new", "new", "newa", "newx", "copy", "del", "drop", "collect", "churn", "box", "boxchain", "boxcycle", "arrb",
-                                  "stop", "start", "windel", "bigchain", "cont", "cont", "ownc", "ownc", "tlskeep", "boxlive"]))
+        o = draw(st.sampled_from(["new", "new", "newa", "newa", "newa", "newx", "copy", "del", "drop", "collect", "churn", "box", "boxchain", "boxcycle", "arrb",
+                                  "stop", "start", "windel", "bigchain", "cont", "cont", "ownc", "ownc", "tlskeep", "boxlive", "wrapcluster", "wrapcluster"]))
         if o in ("new", "newa", "newx"):
             cls = draw(st.sampled_from(["m", "m", "m", "root", "raw"]))
             nobj += 1
@@ -62,15 +61,20 @@ def _case(draw):
             kind = "nodea" if o == "newa" else "node"
             if o == "newx":
                 # objects of size 0, of a size that is not a multiple of the word size, of 1 MiB (at most two per case)
-                kind = draw(st.sampled_from(["nodez", "nodez", "nodeo", "nodeb"]))
+                kind = draw(st.sampled_from(["nodez", "nodez", "nodeo", "nodeb", "nodem"]))
                 if kind == "nodeb":
                     if nbig >= 2:
                         kind = "nodeo"
                     else:
                         nbig += 1
             # new / new_root / new_raw, or alloc / alloc_root / alloc_raw without a constructor call
-            ops.append(["alloc" if (kind != "nodea" and draw(st.integers(0, 4)) == 0) else "new", h, kind, cls])
-            if kind != "nodez":
+            if kind == "nodea":
+                # arena object at an address aimed at a residue class of the registry (-2 = its last slot: clusters that
+                # wrap around the table end, -1 = anywhere), as in C01 / C17
+                ops.append(["new", h, kind, cls, draw(st.sampled_from([-1, -2, -2, 0, 1]))])
+            else:
+                ops.append(["alloc" if (kind != "nodem" and draw(st.integers(0, 4)) == 0) else "new", h, kind, cls])
+            if kind not in ("nodez", "nodem"):
                 nodes.add(h)            # copyable (copy of a size-0 object raises TypeError: nothing to assign)
             rootcls[h] = (cls, stopped)
             if stopped and cls != "raw":
@@ -99,6 +103,7 @@ def _case(draw):
             elif cands:
                 slot, h = cands[draw(st.integers(0, len(cands) - 1))]
                 del kept[slot]
+                ops.append(["dt0", h])          # still referenced from the stack: no collection may have finalised it
                 ops.append(["unstk", slot])
                 ops.append(["del", h, "now"])
                 if stopped:
@@ -111,6 +116,7 @@ def _case(draw):
         elif o == "drop":
             if kept:
                 slot = draw(st.sampled_from(sorted(kept)))
+                ops.append(["dt0", kept[slot]])
                 del kept[slot]
                 ops.append(["unstk", slot])
         elif o == "collect":
@@ -317,7 +323,7 @@ def _case(draw):
                 else:
                     j, t = held.pop(draw(st.integers(0, len(held) - 1)))
                     ops.append(["unstore", c, j])
-                ops.append(["dt", t])              # the owned object was finalised by the removal
+                ops.append(["dt", t])              # (observation only) the removal finalises the owned object
             how = draw(st.sampled_from(["drop", "del", "clear", "keep"]))
             if how == "clear":
                 ops.append(["clear", c])
@@ -334,6 +340,20 @@ def _case(draw):
                     for j, t in held:
                         ops.append(["dt", t])
             flags["owner_pair"] = True
+        elif o == "wrapcluster" and not stopped:
+            # arena objects aimed at the registry's last slot: a probe cluster that wraps around the table end, made of
+            # garbage and of objects kept on the stack, swept right away (the kept ones must survive it unfinalised)
+            for j in range(draw(st.integers(3, 8))):
+                nobj += 1
+                ops.append(["new", nobj, "nodea", "m", -2])
+                nodes.add(nobj)
+                free = sorted(set(range(16)) - set(kept))
+                if j >= 1 and free and draw(st.booleans()):
+                    kept[free[0]] = nobj
+                    ops.append(["stk", free[0], nobj])
+            ops.append(["collect"])
+            for slot in sorted(kept):
+                ops.append(["dt0", kept[slot]])
         elif o == "tlskeep" and not stopped and tls_used < 6:
             # an object referenced only from the thread's thread-local storage, never removed: finalised by teardown
             nobj += 1
@@ -374,6 +394,8 @@ def _case(draw):
             ops.append(["note", "teardown-while-stopped"])      # the thread / program ends with its collector stopped
     for h in rootraw:
         ops.append(["del", h, "now"])
+    for slot in sorted(kept):
+        ops.append(["dt0", kept[slot]])
     if draw(st.booleans()):
         for slot in sorted(kept):
             ops.append(["unstk", slot])
@@ -388,7 +410,7 @@ def strategy(tier):
     return _case()
 
 
-NODEKINDS = ("node", "nodea", "nodeb", "nodeo", "nodez")
+NODEKINDS = ("node", "nodea", "nodeb", "nodeo", "nodez", "nodem")
 
 
 def encode(case):
@@ -409,7 +431,10 @@ def encode(case):
             else:
                 if len(op) > 4 and str(op[4]).startswith("retype"):
                     emit("retype %s" % op[4][6:])
-                emit("new %d %s %s" % (op[1], op[2], op[3]))
+                if op[2] == "nodea" and len(op) > 4 and op[4] != -1:
+                    emit("new %d nodea %s %s" % (op[1], op[3], "last" if op[4] == -2 else str(op[4])))
+                else:
+                    emit("new %d %s %s" % (op[1], op[2], op[3]))
         elif o == "alloc":
             kinds[op[1]] = op[2]
             emit("alloc %d %s %s" % (op[1], op[2], op[3]))
@@ -423,8 +448,12 @@ def encode(case):
             emit("popat %d %d" % (op[1], op[2]))
         elif o == "clear":
             emit("clear %d" % op[1])
+        elif o == "dt0":
+            emit("dt %d" % op[1], "dtor=0")
         elif o == "dt":
-            emit("dt %d" % op[1], "dtor=1")
+            # the removal normally finalises the owned object at once; the property only demands exactly once by
+            # teardown (an element left to the collector would still comply), so nothing is expected here
+            emit("dt %d" % op[1])
         elif o == "tls":
             emit("tls %d %d" % (op[1], op[2]))
         elif o == "stk":
@@ -470,8 +499,10 @@ def run_case(ctx, case):
     for l, o, e in zip(lines, obs, expect):
         if " exc " in o or " depth=" in o or " err=[" in o:
             return Result("op `%s`: %s" % (l, o), True, ev, None)
+        if e == "dtor=0" and o.strip() != "dtor=0":
+            return Result("op `%s`: an object still referenced from the executor's stack slot was finalised (%s)" % (l, o), True, ev, None)
         if e == "dtor=1" and o.strip() != "dtor=1":
-            return Result("op `%s`: object not finalised exactly once when its del / the removal from its owning container returned (%s)" % (l, o), True, ev, None)
+            return Result("op `%s`: object not finalised exactly once when del returned (%s)" % (l, o), True, ev, None)
     fin_before_teardown = obs[len(lines) - 1].split()[1:]
     td = gcx.parse_teardown(obs[-1])
     if td is None:
@@ -492,6 +523,8 @@ def run_case(ctx, case):
         if op[0] in ("new", "alloc"):
             if op[2] in ("nodez", "nodeo", "nodeb"):
                 cls.add("size=" + {"nodez": "0", "nodeo": "52", "nodeb": "1MiB"}[op[2]])
+            elif op[2] == "nodem":
+                cls.add("own-side-block+Mark")
             elif op[2] in ("lstb", "tabb", "treb", "arrb"):
                 cls.add("owning-container=" + op[2])
             elif op[2] not in ("node", "nodea", "box"):
@@ -503,7 +536,7 @@ def run_case(ctx, case):
         elif op[0] == "tls":
             cls.add("kept-in-thread-local-storage")
         elif op[0] == "dt":
-            cls.add("removal-finalises-owned")
+            cls.add("removal-from-owning-container")
         elif op[0] == "note":
             cls.add(op[1])
     ev += sorted(cls)
